@@ -49,35 +49,25 @@ Proof.
   destruct (ed_options e) as [|[[n d] inf] r] eqn:Eo.
   - rewrite has_suffix_app. cbn [negb]. intro H. injection H as Hdesc _ _.
     unfold desc_plain. rewrite Hdesc, str_eqb_refl. reflexivity.
-  - destruct (has_suffix unspecified n) eqn:Es.
-    + rewrite (pfx_suffix (ed_prefix e) n Es). cbn [negb]. intro H. injection H as Hdesc Htp Hopts.
+  - destruct (is_zero_opt (ed_prefix e) n) eqn:Ez.
+    + pose proof Ez as Ep. apply str_eqb_eq in Ep. rewrite Ep.
+      rewrite has_suffix_app. cbn [negb]. rewrite trim_suffix_app. intro H. injection H as Hdesc Hopts.
       assert (Hnames : names_unspecified (ed_prefix e) n = true).
       { destruct (names_unspecified (ed_prefix e) n) eqn:En; [reflexivity|]. exfalso.
         apply (f_equal (@length _)) in Hopts. cbn [map length] in Hopts.
         rewrite map_length, number_from_length, number_options_length in Hopts. cbn [length] in Hopts. lia. }
       rewrite Hnames in Hopts. cbn [map] in Hopts. injection Hopts as _ Hd Hrest.
-      rewrite Htp in Hrest.
-      assert (Hu : str_eqb n (ed_prefix e ++ unspecified) || (str_eqb n unspecified && negb (has_prefix (ed_prefix e) unspecified)) = true).
-      { unfold names_unspecified in Hnames. apply orb_true_iff in Hnames as [Hn|Hn].
-        - apply str_eqb_eq in Hn. subst n. unfold pfx in Htp.
-          destruct (has_prefix (ed_prefix e) unspecified) eqn:Ep.
-          + (* the prefix is a prefix of "UNSPECIFIED": the trimmed head is empty, so the prefix is empty *)
-            rewrite <- (app_nil_l unspecified) in Htp at 2. rewrite trim_suffix_app in Htp.
-            rewrite <- Htp. cbn [app]. rewrite str_eqb_refl. reflexivity.
-          + rewrite str_eqb_refl. cbn [negb andb]. apply orb_true_r.
-        - rewrite Hn. reflexivity. }
-      rewrite Hu. cbn [andb].
+      rewrite Hnames. cbn [Bool.eqb andb].
       unfold desc_plain at 1. rewrite Hdesc, str_eqb_refl. cbn [andb forallb snd fst].
       unfold desc_plain at 1. rewrite Hd, str_eqb_refl. cbn [andb].
       exact (read_numbered_conv (ed_prefix e) r 1%Z Hrest).
     + rewrite has_suffix_app. cbn [negb]. rewrite trim_suffix_app. intro H. injection H as Hdesc Hopts.
       assert (Hn : names_unspecified (ed_prefix e) n = false).
-      { unfold names_unspecified. apply orb_false_iff. split.
-        - destruct (str_eqb n unspecified) eqn:E; [|reflexivity]. apply str_eqb_eq in E. subst n.
-          rewrite has_suffix_refl in Es. discriminate.
-        - destruct (str_eqb n (ed_prefix e ++ unspecified)) eqn:E; [|reflexivity]. apply str_eqb_eq in E. subst n.
-          rewrite has_suffix_app in Es. discriminate. }
+      { destruct (names_unspecified (ed_prefix e) n) eqn:En; [|reflexivity]. exfalso.
+        apply (f_equal (@length _)) in Hopts. cbn [map length] in Hopts.
+        rewrite map_length, number_from_length, number_options_length in Hopts. cbn [length] in Hopts. lia. }
       rewrite Hn in Hopts. assert (Hrest := f_equal (@tl _) Hopts). cbn [map tl] in Hrest.
+      rewrite Hn. cbn [Bool.eqb andb].
       unfold desc_plain at 1. rewrite Hdesc, str_eqb_refl. cbn [andb].
       exact (read_numbered_conv (ed_prefix e) ((n, d, inf) :: r) 1%Z Hrest).
 Qed.
